@@ -358,8 +358,9 @@ def _decrypt_hmac(key: bytes, data: bytes, digest: str) -> bytes:
     cipher = _create_cipher(key, iv)
 
     decrypted = cipher.decrypt(encrypted)
-    if decrypted[-1] <= 16:
-        # PKCS#7 padding
+    if 1 <= decrypted[-1] <= 16 and decrypted.endswith(decrypted[-1:] * decrypted[-1]):
+        # PKCS#7 padding, only strip it if it is intact
+        # The padding is not covered by the HMAC, so a damaged padding is left in place and fails the HMAC check
         decrypted = decrypted[: -decrypted[-1]]
 
     # We don't do any secret crypto so we don't care about the warning in the docs about timing attacks
